@@ -55,6 +55,12 @@ def setup(needs):
     assert os.path.abspath(mpservice.__file__).startswith(os.path.abspath(REPO_SRC)), mpservice.__file__
     if 'proc' in needs:
         osproc.install_post_import()
+    # adversarial-but-legal object identity for every place mpservice keys state by id()
+    import mpservice.mpserver._server as _srv
+    import mpservice.socket as _sock
+    import mpservice.threading as _mthr
+    import mpservice.multiprocessing as _mmp
+    threads.inject_id(_srv, _sock, _mthr, _mmp)
     core.enable_line_preemption([os.path.abspath(REPO_SRC) + '/mpservice/'])
     return core
 
@@ -193,7 +199,7 @@ def classify(check, sim, sc, verdict, obs):
         res['decisions'] = sim.decisions
         res['report'] = _jsonable(report)
     nt = getattr(check, 'nontrivial', None)
-    res['nontrivial'] = bool(nt(sim, sc, obs)) if nt is not None else sim.max_runnable >= 2
+    res['nontrivial'] = (bool(nt(sim, sc, obs)) if obs is not None else False) if nt is not None else sim.max_runnable >= 2
     tags = getattr(check, 'tags', None)
     if tags is not None and obs is not None:
         try:
